@@ -15,9 +15,14 @@ def main():
     pid = sys.argv[1]
     thorough = "--thorough-if-missed" in sys.argv
     out = "/tmp/brk-%s-out" % pid
-    for n in (1, 2):
-        demo = "%s/change%d_demo_test.go" % (out, n)
-        diff = "%s/change%d.diff" % (out, n)
+    offset = 0
+    for a in sys.argv:
+        if a.startswith("--src="): out = a[6:]
+        if a.startswith("--offset="): offset = int(a[9:])       # second-wave changes are stored as Cnn-3, Cnn-4
+    for k in (1, 2):
+        n = k + offset
+        demo = "%s/change%d_demo_test.go" % (out, k)
+        diff = "%s/change%d.diff" % (out, k)
         if not (os.path.exists(demo) and os.path.exists(diff)):
             print("%s-%d: missing files" % (pid, n)); continue
         src = open(demo).read()
@@ -77,8 +82,8 @@ def main():
         d = os.path.join(ROOT, "seeded", "%s-%d" % (pid, n))
         os.makedirs(d, exist_ok=True)
         shutil.copy(diff, d + "/patch.diff"); shutil.copy(demo, d + "/demo_test.go")
-        if os.path.exists("%s/change%d.md" % (out, n)):
-            shutil.copy("%s/change%d.md" % (out, n), d + "/notes.md")
+        if os.path.exists("%s/change%d.md" % (out, k)):
+            shutil.copy("%s/change%d.md" % (out, k), d + "/notes.md")
         json.dump({"id": "%s-%d" % (pid, n), "property": pid,
                    "author": "independent sub-agent given only the property text and its own scratch worktree (nothing from /verif)",
                    "what_and_needs": "see notes.md (written by the author: what the change is, which clause it breaks, what it needs in order to manifest)",
